@@ -13,7 +13,8 @@ from b2_common import line, fcanon, bits
 ID = 'C12'
 LEAN_MODULE = 'Proofs.C12'
 THEOREMS = ['Fsic.C12.' + n for n in [
-    'reindex_spec', 'first_occurrence', 'fill_default_table', 'fill_precedence', 'model_defaults',
+    'reindex_spec', 'first_occurrence', 'fill_default_table', 'default_by_kind', 'reflected_branches',
+    'reflected_property_defaults', 'fill_precedence', 'model_defaults',
     'reindex_preserves_meta', 'coerce_ne_keyError', 'reindex_strict_unknown', 'effective_strict', 'reindex_succeeds']]
 RULE = ('span pairs: for list / tuple / mixed-hashable spans every old span of length 1..3 over 3 labels (repeats '
         'included) x every new span of length 0..3 (thorough: 0..4) over those labels plus one absent label; ranges '
@@ -22,7 +23,9 @@ RULE = ('span pairs: for list / tuple / mixed-hashable spans every old span of l
         'labels. Every pair gets one of 16 fill configurations (fill_value of each type, per-variable fills with '
         'and without coercion, None keywords, unknown keywords, status/iterations overrides, over-long strings, NaN '
         'for int) x object strict flag x strict argument, rotating deterministically; containers and partly solved '
-        'models alternate; all variables of dtypes float/int/bool/str. Plus seeded random longer pairs, and the '
+        'models alternate; variable sets rotate over every NumPy kind: float64/int64/bool/<U2; int8-32 and uint8-64; '
+        'float16/32, complex64/128, <U5, bytes S3; object (lists, dicts), datetime64, timedelta64; TracerMixin models '
+        '(Trace objects). Plus seeded random longer pairs, and the '
         'pandas mixin with default arguments. distinct = distinct (span type, old, new, configuration, class); '
         'non-trivial = reindex returns an object')
 TRUSTED = ['labels cross to the model as equivalence classes under Python == / hash',
@@ -33,14 +36,14 @@ TRUSTED = ['labels cross to the model as equivalence classes under Python == / h
            'mutate-one-side-observe-the-other',
            'pandas Series.reindex (the mixin) is outside the model: with default arguments the mixin is compared by the oracle with the same specification as the base class (overlap values, dtype default table NaN/0/False/\'\', status/iterations defaults, freshness)']
 ASSUMPTIONS = ['every series has the length of the span (C09 invariant)',
-               'dtypes float64 / int64 / bool / <U (object dtype etc. are outside the property\'s fill table)',
+               'default table judged for bool, all integer widths, float16/32/64, complex, <U, bytes; for object / datetime64 / timedelta64 series the default is not judged (not in the property\'s table), overlap values, given fills (object) and sharing are',
                'old spans of NumPy / pandas type have unique labels (the locators refuse or return masks for duplicates: outside the regime; NumPy duplicates are still compared with the model: KeyError)',
                'weaker readings enforced by the oracle: with repeated labels in the old span any occurrence\'s value is accepted; a keyword fill of None, a fill value of a foreign type (e.g. str for a bool series), and fill_value for status/iterations of a model are not judged']
 
 META = {
-    "text": "Theorems for every object (any variables, dtypes, values), every old/new span (permuted, disjoint, repeated labels; first occurrence = list.index) and every fill_value / keyword fills / strict combination: each new position holds the old value at the first occurrence of its label, else coerce(dtype, keyword fill if given else fill_value) with None -> NaN/0/False/''; models default status to '-' and iterations to -1 unless overridden; names, order, dtypes, strict flag and all other attributes carry over; unknown fill keywords are rejected with KeyError exactly under effective strictness (strict=None -> the object's flag); reindex succeeds on well-formed objects. The model is tied to VectorContainer.reindex / BaseModel.reindex by exact comparison of the full reindexed state (values, dtypes, order, exception class) on all generated span pairs.",
+    "text": "Reflected probe table (Generated.reindexProbes: what the imported reindex puts into a new period, per dtype of a 20-dtype catalogue) with theorems quantifying over it: the model's if/elif branch function equals the code's for bool / every int and uint width / timedelta64 / <U / float64, and the code's defaults equal the property's table (False, 0, NaN, '') for every bool/int/uint/float/complex/<U dtype. Theorems for every object (any variables, dtypes, values), every old/new span (permuted, disjoint, repeated labels; first occurrence = list.index) and every fill_value / keyword fills / strict combination: each new position holds the old value at the first occurrence of its label, else coerce(dtype, keyword fill if given else fill_value) with None -> NaN/0/False/''; models default status to '-' and iterations to -1 unless overridden; names, order, dtypes, strict flag and all other attributes carry over; unknown fill keywords are rejected with KeyError exactly under effective strictness (strict=None -> the object's flag); reindex succeeds on well-formed objects. The model is tied to VectorContainer.reindex / BaseModel.reindex by exact comparison of the full reindexed state (values, dtypes, order, exception class) on all generated span pairs.",
     "design_ref": "DESIGN.md §5 M6, §6 C12, §7 row 19",
-    "note": "Partial: 'original unchanged / shares nothing' is not a theorem (the functional model has no aliasing; heap model belongs to C11) - checked by the oracle on the real code (ids, np.shares_memory, mutation probes). pandas get_loc / in are inputs for pandas spans; the pandas mixin (Series.reindex) is compared with the specification by the oracle only. Trusted: Lean kernel, axioms propext/Classical.choice/Quot.sound, the correspondence harness. The mixin with default arguments is held by the oracle to the same dtype default table as the base class (NaN, 0, False, '' - proved for the base class in fill_default_table; the mixin itself is not modelled). Former findings pandas-mixin-int/bool/str-default (fixed in /repo 7a4b423) and reindex-same-span-object-shared (fixed 4b4abc7) keep their oracle keys, so a regression is a new VIOLATION.",
+    "note": "Open findings: reindex-object-elements-shared (elements of object-dtype series - Trace objects, lists - are shared by reference between result and original), reindex-bytes-default (bytes series default b'Non'). Partial: 'original unchanged / shares nothing' is not a theorem (the functional model has no aliasing; heap model belongs to C11) - checked by the oracle on the real code (ids, np.shares_memory, mutation probes). pandas get_loc / in are inputs for pandas spans; the pandas mixin (Series.reindex) is compared with the specification by the oracle only. Trusted: Lean kernel, axioms propext/Classical.choice/Quot.sound, the correspondence harness. The mixin with default arguments is held by the oracle to the same dtype default table as the base class (NaN, 0, False, '' - proved for the base class in fill_default_table; the mixin itself is not modelled). Former findings pandas-mixin-int/bool/str-default (fixed in /repo 7a4b423) and reindex-same-span-object-shared (fixed 4b4abc7) keep their oracle keys, so a regression is a new VIOLATION.",
     "technique": "Lean 4 proof (induction over the copy loop and the variable list) + exhaustive differential correspondence + property oracle with sharing probes"
 }
 
@@ -49,8 +52,45 @@ VALUES = {
     'I': [3, -1, 4, 1, -5, 9],
     'B': [True, False, True, True, False, True],
     'S': ['ab', 'c', 'de', 'f', 'gh', 'i'],
+    # every other NumPy kind the code can meet
+    'I8': [3, -1, 4, 1, -5, 9], 'I16': [300, -1, 4, 1, -5, 9], 'I32': [70000, -1, 4, 1, -5, 9],
+    'U8': [3, 200, 4, 1, 5, 9], 'U16': [3, 60000, 4, 1, 5, 9], 'U32': [3, 4000000000, 4, 1, 5, 9],
+    'U64': [3, 2 ** 63 + 5, 4, 1, 5, 9],
+    'F16': [1.5, float('nan'), -2.0, 4.25, 0.5, 8.0], 'F32': [1.5, float('nan'), -2.0, 4.25, 0.5, 8.0],
+    'C64': [1.5 + 2j, complex('nan'), -2.0, 4.25j, 0.5, 8.0], 'C128': [1.5 + 2j, complex('nan'), -2.0, 4.25j, 0.5, 8.0],
+    'S5': ['abcde', 'c', '', 'f', 'gh', 'i'],
+    'Y3': [b'abc', b'c', b'', b'f', b'gh', b'i'],
+    'O': None,     # fresh lists per build: see build()
+    'D': ['2000-01-01', 'NaT', '2000-01-03', '1999-12-31', '2000-02-01', '2001-01-01'],
+    'TD': [1, -2, 3, 0, 5, 7],
 }
-DTYPES = {'F': float, 'I': int, 'B': bool, 'S': '<U2'}
+DTYPES = {'F': float, 'I': int, 'B': bool, 'S': '<U2', 'I8': np.int8, 'I16': np.int16, 'I32': np.int32,
+          'U8': np.uint8, 'U16': np.uint16, 'U32': np.uint32, 'U64': np.uint64, 'F16': np.float16, 'F32': np.float32,
+          'C64': np.complex64, 'C128': np.complex128, 'S5': '<U5', 'Y3': 'S3', 'O': object, 'D': 'datetime64[D]',
+          'TD': 'timedelta64[D]'}
+VARSETS = [
+    ['F', 'I', 'B', 'S'],
+    ['I8', 'I16', 'I32', 'U8', 'U16', 'U32', 'U64', 'F'],
+    ['F16', 'F32', 'C64', 'C128', 'S5', 'Y3'],
+    ['O', 'D', 'TD', 'I32', 'S5'],
+]
+
+
+def add_vars(obj, n, varset):
+    for k in VARSETS[varset]:
+        if k == 'O':
+            vals = np.empty(n, dtype=object)
+            for i in range(n):
+                vals[i] = [i, 'x'] if i % 3 != 2 else {'k': i}
+            obj.add_variable(k, None, dtype=object)
+            obj.__dict__['_O'][:] = vals
+        elif k == 'TD':
+            obj.add_variable(k, np.array(VALUES[k][:n], dtype='timedelta64[D]'), dtype=DTYPES[k])
+        elif k == 'D':
+            obj.add_variable(k, np.array(VALUES[k][:n], dtype='datetime64[D]'), dtype=DTYPES[k])
+        else:
+            obj.add_variable(k, VALUES[k][:n], dtype=DTYPES[k])
+
 
 _MODEL = None
 
@@ -74,12 +114,11 @@ def pandas_model_class():
     return _PMODEL
 
 
-def build(span, is_model, strict, cls=None):
+def build(span, is_model, strict, cls=None, varset=0):
     n = len(span)
     if is_model:
         obj = (cls or model_class())(span, strict=strict, G=2.0)
-        for k in ('F', 'I', 'B', 'S'):
-            obj.add_variable(k, VALUES[k][:n], dtype=DTYPES[k])
+        add_vars(obj, n, varset)
         with warnings.catch_warnings():
             warnings.simplefilter('ignore')
             for t in range(1, n, 2):   # partly solved: odd positions
@@ -89,8 +128,7 @@ def build(span, is_model, strict, cls=None):
                     pass
     else:
         obj = VectorContainer(span, strict=strict)
-        for k in ('F', 'I', 'B', 'S'):
-            obj.add_variable(k, VALUES[k][:n], dtype=DTYPES[k])
+        add_vars(obj, n, varset)
     return obj
 
 
@@ -113,6 +151,11 @@ CONFIGS = [
     {'S': 'toolong', 'B': 'x', 'I': '12'},
     {'fill_value': -1.0, 'S': ''},
     {'fill_value': 'q'},
+    # keyword fills for the other dtypes (a keyword naming a variable the object does not have is an unknown keyword)
+    {'I8': 5, 'U8': 200, 'I32': -7, 'U64': 2 ** 63, 'F32': 2.5, 'C64': 1.5, 'S5': 'hello!', 'Y3': 'zz', 'O': 7, 'TD': 3},
+    {'I8': 300, 'F16': 1.5},
+    {'U8': -1, 'C128': True},
+    {'fill_value': 3, 'I16': None, 'F32': None, 'O': None},
 ]
 STRICT_ARGS = [None, None, True, False]
 
@@ -211,31 +254,74 @@ def label_eq(a, b):
 
 # ---- canonical state --------------------------------------------------------------------------------------------------
 
-def dtype_json(dt):
-    if dt.kind == 'f':
-        return 'f'
-    if dt.kind in 'iu':
-        return 'i'
-    if dt.kind == 'b':
-        return 'b'
-    if dt.kind == 'U':
-        return {'s': dt.itemsize // 4}
-    return {'other': str(dt)}
+def ftext(x):
+    x = float(x)
+    return 'nan' if x != x else str(bits(x))
+
+
+def elem(x, dt, for_model=False):
+    """One array element in the form that crosses to the model: float64 as IEEE bits, integer-like as int, bool,
+    <U as str, every other kind as canonical text."""
+    k = dt.kind
+    if k == 'f' and dt.itemsize == 8:
+        return bits(x) if for_model else ('nan' if x != x else bits(x))
+    if k in 'iu':
+        return int(x)
+    if k == 'm':
+        return int(np.asarray(x).astype('int64'))
+    if k == 'b':
+        return bool(x)
+    if k == 'U':
+        return str(x)
+    if k == 'f':
+        return ftext(x)
+    if k == 'c':
+        return 'c:' + ftext(complex(x).real) + ':' + ftext(complex(x).imag)
+    if k == 'S':
+        return 'y:' + bytes(x).decode('latin1')
+    if k == 'M':
+        return 'M:' + str(x)
+    return 'o:' + (repr(x) if type(x).__module__ == 'builtins' else type(x).__name__)
 
 
 def vals_json(a, for_model=False):
-    if a.dtype.kind == 'f':
-        return [bits(x) for x in a.tolist()] if for_model else [('nan' if x != x else bits(x)) for x in a.tolist()]
-    if a.dtype.kind == 'b':
-        return [bool(x) for x in a.tolist()]
-    if a.dtype.kind in 'iu':
-        return [int(x) for x in a.tolist()]
-    return [str(x) for x in a.tolist()]
+    return [elem(x, a.dtype, for_model) for x in a]
 
 
-def state_json(obj, for_model=False):
-    return [[name, dtype_json(obj.__dict__['_' + name].dtype), vals_json(obj.__dict__['_' + name], for_model)]
+def state_json(obj):
+    return [[name, str(obj.__dict__['_' + name].dtype), vals_json(obj.__dict__['_' + name])]
             for name in obj.__dict__['index']]
+
+
+def cast_text(v, dt, n):
+    """NumPy's own cast of a fill value by `np.full(n, v, dtype=dt)` (an input of the model for pass-through dtypes;
+    with n = 0 a value NumPy cannot parse is not even looked at)."""
+    with warnings.catch_warnings():
+        warnings.simplefilter('ignore')
+        try:
+            a = np.full(n, v, dtype=dt)
+            return str(elem(a[0], dt)) if n else ''
+        except Exception:  # noqa: BLE001
+            return None
+
+
+def model_vars(obj, kw, n_new):
+    out = []
+    for name in obj.__dict__['index']:
+        a = obj.__dict__['_' + name]
+        cands = [None]
+        if 'fill_value' in kw:
+            cands.append(kw['fill_value'])
+        if name in kw:
+            cands.append(kw[name])
+        if name == 'status':
+            cands.append('-')
+        if name == 'iterations':
+            cands.append(-1)
+        casts = [[pyval(v), cast_text(v, a.dtype, n_new)] for v in cands]
+        out.append([name, {'k': a.dtype.kind, 'n': a.dtype.itemsize, 'name': str(a.dtype), 'casts': casts},
+                    vals_json(a, for_model=True)])
+    return out
 
 
 def pyval(v):
@@ -268,7 +354,7 @@ def request(case, obj, old, new, family):
                'strict': bool(case['strict']), 'strict_arg': case['strict_arg'],
                'fill_value': pyval(kw.get('fill_value')),
                'fills': [[k, pyval(v)] for k, v in kw.items() if k not in ('fill_value', 'strict')],
-               'vars': state_json(obj, for_model=True)}
+               'vars': model_vars(obj, kw, len(list(new)))}
     if family == 'pandas':
         pm = []
         for x in list(new):
@@ -314,6 +400,54 @@ def mutable_objects(obj):
     return seen
 
 
+def is_mutable(x):
+    return not isinstance(x, (type(None), bool, int, float, complex, str, bytes, tuple, frozenset, np.generic))
+
+
+def observe_element_mutation(x0, x1):
+    """Change `x1` in place; does `x0` show it?  (x0 is x1 when the element object is shared.)"""
+    try:
+        if isinstance(x1, list):
+            x1.append('__probe__')
+            return x0[-1:] == ['__probe__']
+        if isinstance(x1, dict):
+            x1['__probe__'] = 1
+            return '__probe__' in x0
+        setattr(x1, '_probe_attr', 1)
+        return getattr(x0, '_probe_attr', None) == 1
+    except Exception:  # noqa: BLE001
+        return None
+
+
+def mutate_array(a, k):
+    if not a.size:
+        return
+    kind = a.dtype.kind
+    if kind in 'US':
+        a[...] = a[::-1].copy()
+        a[0] = 'q' if kind == 'U' else b'q'
+    elif kind == 'b':
+        a[...] = ~a
+    elif kind == 'O':
+        a[...] = None
+    elif kind == 'M':
+        a[...] = np.datetime64('1970-01-01') + np.timedelta64(k, 'D')
+    else:
+        a[...] = k
+
+
+def strip_object_elements(snap):
+    """Array-level view of a snapshot: in-place changes *inside* shared element objects are reported separately
+    (reindex-object-elements-shared), so the array-level probes ignore the elements of object series."""
+    out = dict(snap)
+    out['vars'] = {k: (v if v is None or v[0] != 'object' else (v[0], v[1])) for k, v in snap['vars'].items()}
+    return out
+
+
+def snapshot_no_object_elements(obj):
+    return strip_object_elements(bc.snapshot(obj))
+
+
 def expected_fill(name, dtype, kw, is_model):
     """(value, judged?) per the property text; not judged where the text is ambiguous (see ASSUMPTIONS)."""
     fills = {k: v for k, v in kw.items() if k not in ('fill_value', 'strict')}
@@ -328,19 +462,66 @@ def expected_fill(name, dtype, kw, is_model):
     else:
         v = kw.get('fill_value')
     kind = dtype.kind
+    if kind in 'OMm':
+        # object / datetime64 / timedelta64: not in the property's default table; a given fill is judged for object
+        if v is None or kind != 'O' or isinstance(v, (list, dict)):
+            return None, False
+        return v, True
     if v is None:
-        v = {'f': float('nan'), 'i': 0, 'u': 0, 'b': False, 'U': ''}[kind]
-    natural = ((kind == 'f' and isinstance(v, (int, float)) and not isinstance(v, bool)) or
+        v = {'f': float('nan'), 'c': float('nan'), 'i': 0, 'u': 0, 'b': False, 'U': '', 'S': b''}[kind]
+    natural = ((kind in 'fc' and isinstance(v, (int, float)) and not isinstance(v, bool)) or
                (kind in 'iu' and isinstance(v, int) and not isinstance(v, bool)) or
-               (kind == 'b' and isinstance(v, bool)) or (kind == 'U' and isinstance(v, str)))
+               (kind == 'b' and isinstance(v, bool)) or (kind == 'U' and isinstance(v, str)) or
+               (kind == 'S' and isinstance(v, (bytes, str))))
     if not natural:
         return None, False
-    return np.full(1, v, dtype=dtype)[0], True
+    try:
+        with warnings.catch_warnings():
+            warnings.simplefilter('ignore')
+            return np.full(1, v, dtype=dtype)[0], True
+    except Exception:  # noqa: BLE001  (e.g. 300 for an int8 series: not representable, outside the property)
+        return None, False
+
+
+def deep_equal(a, b, depth=0):
+    """Structural equality of two element objects (a copied Trace object is not `==` its original)."""
+    if a is b:
+        return True
+    if type(a) is not type(b) or depth > 6:
+        return False
+    if isinstance(a, np.ndarray):
+        if a.shape != b.shape or a.dtype != b.dtype:
+            return False
+        if a.dtype.kind == 'O':
+            return all(deep_equal(x, y, depth + 1) for x, y in zip(a.ravel(), b.ravel()))
+        try:
+            return bool(np.array_equal(a, b, equal_nan=True))
+        except TypeError:
+            return bool(np.array_equal(a, b))
+    if isinstance(a, dict):
+        return a.keys() == b.keys() and all(deep_equal(a[k], b[k], depth + 1) for k in a)
+    if isinstance(a, (list, tuple)):
+        return len(a) == len(b) and all(deep_equal(x, y, depth + 1) for x, y in zip(a, b))
+    if isinstance(a, float):
+        return (a != a and b != b) or a == b
+    if hasattr(a, 'equals') and type(a).__module__.startswith('pandas'):
+        return bool(a.equals(b))
+    if hasattr(a, '__dict__') and type(a).__eq__ is object.__eq__:
+        return deep_equal(vars(a), vars(b), depth + 1)
+    try:
+        return bool(a == b)
+    except Exception:  # noqa: BLE001
+        return False
 
 
 def same_value(a, b):
-    if isinstance(a, (float, np.floating)) and isinstance(b, (float, np.floating)):
-        return (a != a and b != b) or a == b
+    if is_mutable(a) and is_mutable(b) and not isinstance(a, np.generic):
+        return deep_equal(a, b)
+    num = (float, np.floating, complex, np.complexfloating)
+    if isinstance(a, num) and isinstance(b, num):
+        return bool((np.isnan(a) and np.isnan(b)) or a == b)
+    if isinstance(a, (np.datetime64, np.timedelta64)) and isinstance(b, (np.datetime64, np.timedelta64)):
+        return bool((np.isnat(a) and np.isnat(b)) or a == b)
     return type(np.asarray(a).tolist()) == type(np.asarray(b).tolist()) and a == b
 
 
@@ -397,10 +578,12 @@ def oracle(case, obj, before, old, new, outcome, rep, pandas_mixin=False):
                     bc.violate(rep, pre + 'reindex-overlap-value', f'{nm}[{lab!r}] = {a1[i]!r}, old value {a0[occ[0]]!r}', case)
                     break
             elif judged and not same_value(a1[i], fill):
-                key = 'reindex-fill-value'
+                key = 'reindex-bytes-default' if (a0.dtype.kind == 'S' and nm not in kw and kw.get('fill_value') is None) \
+                    else 'reindex-fill-value'
                 if pandas_mixin:
                     key = {'i': 'pandas-mixin-int-default', 'b': 'pandas-mixin-bool-default',
-                           'U': 'pandas-mixin-str-default'}.get(a0.dtype.kind, 'pandas-mixin-fill-value')
+                           'U': 'pandas-mixin-str-default', 'u': 'pandas-mixin-int-default',
+                           'S': 'reindex-bytes-default'}.get(a0.dtype.kind, 'pandas-mixin-fill-value')
                 bc.violate(rep, key, f'{nm}[{lab!r}] (new period) = {a1[i]!r}, expected fill {fill!r}', case)
                 break
     # attributes, lag/lead settings, strict flag carry over
@@ -424,23 +607,31 @@ def oracle(case, obj, before, old, new, outcome, rep, pandas_mixin=False):
         for b in arrs0:
             if a is not b and a.size and b.size and np.shares_memory(a, b):
                 bc.violate(rep, pre + 'reindex-shares-memory', 'an array of the result shares memory with the original', case)
+    # elements of object-dtype series (lists, dicts, Trace objects …) are reachable mutable state as well
+    for nm in names:
+        a0, a1 = obj.__dict__['_' + nm], r.__dict__['_' + nm]
+        if a0.dtype.kind == 'O':
+            ids0 = {id(x): i for i, x in enumerate(a0) if is_mutable(x)}
+            hit = [(ids0[id(y)], j) for j, y in enumerate(a1) if id(y) in ids0]
+            if hit:
+                o, j = hit[0]
+                seen = observe_element_mutation(a0[o], a1[j])
+                bc.violate(rep, 'reindex-object-elements-shared',
+                           f'{nm} (dtype object): result[{j}] IS original[{o}] ({type(a0[o]).__name__}); {len(hit)} shared '
+                           f'element(s); in-place change through the result seen by the original: {seen}', case)
     if case.get('probe'):
         # mutate the result, observe the original; then the other way round
         for nm in names:
-            a = r.__dict__['_' + nm]
-            if a.size:
-                a[...] = a[::-1].copy() if a.dtype.kind == 'U' else (~a if a.dtype.kind == 'b' else a * 0 + 41)
+            mutate_array(r.__dict__['_' + nm], 41)
         r.__dict__['index'].append('__probe__')
         r.__dict__['_attributes'].append('__probe__')
-        if bc.snapshot(obj) != before:
+        if snapshot_no_object_elements(obj) != strip_object_elements(before):
             bc.violate(rep, pre + 'reindex-shares-object', 'mutating the result changed the original', case)
-        after_r = bc.snapshot(r)
+        after_r = snapshot_no_object_elements(r)
         for nm in names:
-            a = obj.__dict__['_' + nm]
-            if a.size:
-                a[...] = a[::-1].copy() if a.dtype.kind == 'U' else (~a if a.dtype.kind == 'b' else a * 0 + 43)
+            mutate_array(obj.__dict__['_' + nm], 43)
         obj.__dict__['_attributes'].append('__probe2__')
-        if bc.snapshot(r) != after_r:
+        if snapshot_no_object_elements(r) != after_r:
             bc.violate(rep, pre + 'reindex-shares-object', 'mutating the original changed the result', case)
     return 'holds'
 
@@ -458,7 +649,7 @@ def check_cases(ctx, rep, cases):
     reqs, held = [], []
     for case in cases:
         old, new, family = spans_of(case)
-        obj = build(old, case['is_model'], case['strict'])
+        obj = build(old, case['is_model'], case['strict'], varset=case.get('varset', 0))
         if case.get('same_span_object'):
             new = obj.__dict__['span']
         before = bc.snapshot(obj)
@@ -498,7 +689,8 @@ def enumerate_cases(tier):
         i += 1
         case = dict(spec)
         case.update({'kind': 'reindex', 'config': i % len(CONFIGS), 'is_model': (i // len(CONFIGS)) % 2 == 1,
-                     'strict': (i // 3) % 4 == 3, 'strict_arg': STRICT_ARGS[(i // 5) % 4], 'probe': i % 7 == 0})
+                     'strict': (i // 3) % 4 == 3, 'strict_arg': STRICT_ARGS[(i // 5) % 4], 'probe': i % 7 == 0,
+                     'varset': (i // 2 + i // 9) % len(VARSETS)})
         yield case
 
 
@@ -514,10 +706,11 @@ def config_sweep():
             for strict in (False, True):
                 for sa in (None, True, False):
                     for is_model in (False, True):
-                        case = dict(p)
-                        case.update({'kind': 'reindex', 'config': c, 'is_model': is_model, 'strict': strict,
-                                     'strict_arg': sa, 'probe': True})
-                        yield case
+                        for varset in range(len(VARSETS)):
+                            case = dict(p)
+                            case.update({'kind': 'reindex', 'config': c, 'is_model': is_model, 'strict': strict,
+                                         'strict_arg': sa, 'probe': True, 'varset': varset})
+                            yield case
 
 
 def same_span_cases():
@@ -541,7 +734,7 @@ def random_case(rng):
         new = [rng.randrange(7) for _ in range(rng.randrange(0, 7))]
     return {'kind': 'reindex', 'span_kind': kind, 'old': old, 'new': new, 'config': rng.randrange(len(CONFIGS)),
             'is_model': rng.random() < 0.5, 'strict': rng.random() < 0.3, 'strict_arg': rng.choice(STRICT_ARGS),
-            'probe': rng.random() < 0.2}
+            'probe': rng.random() < 0.2, 'varset': rng.randrange(len(VARSETS))}
 
 
 # ---- the pandas mixin with its default arguments -------------------------------------------------------------------------
@@ -555,19 +748,63 @@ def mixin_cases():
                      ([2, 3], [0, 1]), ([0, 1, 2], [])]
             if kind == 'list_str':
                 specs = [(o, [min(x, 3) for x in n]) for o, n in specs if max(o) < 3]
-        for old, new in specs:
-            yield {'kind': 'mixin', 'span_kind': kind, 'old': old, 'new': new, 'config': 0, 'is_model': True,
-                   'strict': False, 'strict_arg': None, 'probe': False}
+        for j, (old, new) in enumerate(specs):
+            for varset in ((0, 1, 2, 3) if j < 2 else (j % len(VARSETS),)):
+                yield {'kind': 'mixin', 'span_kind': kind, 'old': old, 'new': new, 'config': 0, 'is_model': True,
+                       'strict': False, 'strict_arg': None, 'probe': False, 'varset': varset}
+
+
+def run_mixin_case(case, rep):
+    old, new, family = spans_of(case)
+    obj = build(old, True, False, cls=pandas_model_class(), varset=case.get('varset', 0))
+    before = bc.snapshot(obj)
+    outcome = run_impl(obj, new, {})
+    return oracle(case, obj, before, old, new, outcome, rep, pandas_mixin=True), outcome
 
 
 def check_mixin(ctx, rep):
     for case in mixin_cases():
-        old, new, family = spans_of(case)
-        obj = build(old, True, False, cls=pandas_model_class())
-        before = bc.snapshot(obj)
-        outcome = run_impl(obj, new, {})
-        regime = oracle(case, obj, before, old, new, outcome, rep, pandas_mixin=True)
+        regime, outcome = run_mixin_case(case, rep)
         rep.dist['mixin:' + regime] += 1
+        rep.case(json.dumps(case, sort_keys=True), nontrivial=(outcome[0] == 'ok'))
+
+
+# ---- object-dtype series: Trace objects of TracerMixin, lists in a container ---------------------------------------------
+
+_TMODEL = None
+
+
+def tracer_model_class():
+    global _TMODEL
+    if _TMODEL is None:
+        from fsic.extensions import TracerMixin
+
+        class TracedModel(TracerMixin, model_class()):
+            pass
+        _TMODEL = TracedModel
+    return _TMODEL
+
+
+def tracer_cases():
+    for kind, old, new in (('range', [0, 4], {'range': [1, 4]}), ('range', [0, 3], {'list': [2, 0, 7]}),
+                           ('list_str', [0, 1, 2], [2, 3, 0]), ('period_Q', [0, 1, 2, 3], [2, 3, 4])):
+        for config in (0, 1):
+            yield {'kind': 'tracer', 'span_kind': kind, 'old': old, 'new': new, 'config': config, 'is_model': True,
+                   'strict': False, 'strict_arg': None, 'probe': True, 'varset': 0}
+
+
+def run_tracer_case(case, rep):
+    old, new, family = spans_of(case)
+    obj = build(old, True, False, cls=tracer_model_class(), varset=0)
+    before = bc.snapshot(obj)
+    outcome = run_impl(obj, new, case_kwargs(case))
+    return oracle(case, obj, before, old, new, outcome, rep), outcome
+
+
+def check_tracer(ctx, rep):
+    for case in tracer_cases():
+        regime, outcome = run_tracer_case(case, rep)
+        rep.dist['tracer:' + regime] += 1
         rep.case(json.dumps(case, sort_keys=True), nontrivial=(outcome[0] == 'ok'))
 
 
@@ -581,6 +818,7 @@ def run(ctx, rep):
     for chunk in range(0, n_random, 5000):
         check_cases(ctx, rep, [random_case(rng) for _ in range(min(5000, n_random - chunk))])
     check_mixin(ctx, rep)
+    check_tracer(ctx, rep)
     rep.notes.append(f'enumerated {len(cases)} (span pair, configuration) cases; random {n_random}; mixin {len(list(mixin_cases()))}')
     rep.exhaustive = False
 
@@ -593,16 +831,12 @@ def replay(ctx, rep, case):
 
 
 def _replay(ctx, rep, case):
-    if case.get('kind') == 'mixin':
-        old, new, family = spans_of(case)
-        obj = build(old, True, False, cls=pandas_model_class())
-        before = bc.snapshot(obj)
-        outcome = run_impl(obj, new, {})
-        oracle(case, obj, before, old, new, outcome, rep, pandas_mixin=True)
+    if case.get('kind') in ('mixin', 'tracer'):
+        regime, outcome = (run_mixin_case if case['kind'] == 'mixin' else run_tracer_case)(case, rep)
         print('  impl :', outcome[0], state_json(outcome[1]) if outcome[0] == 'ok' else repr(outcome[1]))
         return
     old, new, family = spans_of(case)
-    obj = build(old, case['is_model'], case['strict'])
+    obj = build(old, case['is_model'], case['strict'], varset=case.get('varset', 0))
     if case.get('same_span_object'):
         new = obj.__dict__['span']
     before = bc.snapshot(obj)
